@@ -595,17 +595,40 @@ def _prng_random(sc, res, dr):
                 if not ok:
                     return
             except ScriptExhausted:
-                res.violate("C19/random-out-of-range", f"{what}: needed more than one raw output")
+                # random() built from several raw words (e.g. 53 bits from two 32-bit outputs): how it
+                # scales a *reduced* word size is not defined, so uniformity cannot be decided by this
+                # enumeration; the range is still checked on the real domain with extreme words
+                res.hit("degraded:random_uses_several_raw_outputs")
+                res.log("random", D, "multi-draw")
+                _prng_random_extremes(res, dr)
                 return
             if not isinstance(r, float) or not 0.0 <= r < 1.0:
                 res.violate("C19/random-out-of-range", f"{what}: raw output {x0} gave {r!r}")
                 return
             buckets[int(r * D)] += 1
         res.log("random", D, buckets[:8])
+        _prng_random_extremes(res, dr)
         if any(c != 1 for c in buckets):
             res.violate("C19/random-not-uniform", f"{what}: outputs per interval of width 1/{D}: {buckets[:16]}")
             return
         res.nontrivial = True
+
+
+def _prng_random_extremes(res, dr):
+    with _RngSeam(1 << 32) as seam:  # the real word size, whatever domain an enclosing seam has set
+        for word in (0, 0xFFFFFFFF, 0x80000000, 1):
+            seam.script([word] * 8)
+            try:
+                r = dr.random()
+            except ScriptExhausted:
+                res.hit("degraded:random_needs_more_than_8_raw_outputs")
+                return
+            except Exception as e:
+                res.violate("C19/random-out-of-range", f"random() on raw outputs {word:#x} raised {type(e).__name__}: {e}")
+                return
+            if not isinstance(r, float) or not 0.0 <= r < 1.0:
+                res.violate("C19/random-out-of-range", f"random() on raw outputs all equal to {word:#x} gave {r!r}")
+                return
 
 
 def _prng_real_randint(sc, res, dr):
@@ -634,12 +657,11 @@ def _prng_real_randint(sc, res, dr):
             if type(r) is not int or not a <= r <= b:
                 res.violate("C19/randint-out-of-range", f"{what}: raw output {x0} gave {r!r}")
                 return
-            if x0 >= limit:
+            if s.pos >= 2:
                 res.nontrivial = True
                 res.hit("probe:rejection_branch_taken")
-                if s.pos != 2:
-                    res.violate("C19/randint-not-uniform", f"{what}: raw output {x0} >= {limit} was accepted, which biases the low values")
-                    return
+            # which raw outputs are rejected is the implementation's choice (modulo zone, bucket zone,
+            # bit-mask ...); exact uniformity is decided on the enumerated reduced domains, not here
             res.log("real_randint", x0, r, s.pos)
         # a > b and too wide domains are documented to raise ValueError
         for aa, bb in ((a + 1, a), (0, D)):
